@@ -322,7 +322,8 @@ Fixpoint js_lex (fuel : nat) (l : list Z) : option (list js_tok) :=
       | b :: t =>
           let cont (tok : js_tok) (rest : list Z) :=
             match js_lex f rest with Some ts => Some (tok :: ts) | None => None end in
-          if js_is_ws b then js_lex f t
+          if b =? 0 then Some []                         (* the lexer takes a NUL byte for the end of the input *)
+          else if js_is_ws b then js_lex f t
           else if b =? 91 then cont JtLBrack t
           else if b =? 93 then cont JtRBrack t
           else if b =? 123 then cont JtLBrace t
@@ -333,7 +334,7 @@ Fixpoint js_lex (fuel : nat) (l : list Z) : option (list js_tok) :=
           else if b =? 116 then match js_starts [114; 117; 101] t with Some r => cont JtTrue r | None => None end
           else if b =? 102 then match js_starts [97; 108; 115; 101] t with Some r => cont JtFalse r | None => None end
           else if b =? 34 then
-            match js_lex_str (S (length t)) t [] with
+            match js_lex_str f t [] with                  (* f >= length t: enough for any string inside t *)
             | Some (s, r) => cont (JtStr s) r
             | None => None
             end
